@@ -87,6 +87,8 @@ class Cells:
 
 def run(facts, rep, tier):
     F = facts["default"]
+    from engines import eqop
+    eqop(F, rep, ('crates/incan_core/src/lib.rs', 'src/numeric_adapters.rs', 'src/frontend/typechecker/check_expr/ops.rs', 'src/frontend/typechecker/check_stmt.rs', 'src/frontend/typechecker/const_eval.rs', 'src/backend/ir/lower/expr.rs', 'src/backend/ir/lower/types.rs', 'src/backend/ir/conversions.rs'))
     rep.assumptions += [
         "oracle = language/reference/numeric_semantics.md as transcribed in rules/c07.py::oracle",
         "derived PartialEq on field-less enums compares discriminants; Clone copies",
